@@ -28,6 +28,7 @@ CLASSES = {
     'V': 'DATA f 0\n',                                    # valid entry
     'D': '- DATA g 0\n',                                  # dash-escaped entry
     'X': '- -----BEGIN PGP SIGNATURE-----\n',             # dash-escaped armor line
+    'Y': '- - DATA h 0\n',                                # twice dash-escaped entry: the cleartext line is "- DATA h 0", not an entry
     'J': 'NOTATAG what 1\n',                              # junk
 }
 
@@ -140,11 +141,20 @@ def c04(rng, tier):
         for _ in range(3000):
             seqs.append(tuple(rng.choice(keys) for _ in range(rng.randint(4, maxlen))))
         # well-formed skeletons with variations
-        for body in itertools.product('VDX_WJ', repeat=2):
+        for body in itertools.product('VDXY_WJ', repeat=2):
             seqs.append(tuple('BH_') + body + tuple('SHE'))
             seqs.append(tuple('BHW') + body + tuple('SHE'))
             seqs.append(tuple('_BH_') + body + tuple('SHE_'))
             seqs.append(tuple('V') + tuple('BH_') + body + tuple('SHE'))
+        # every class at every position of an otherwise well-formed message (headers, body, signature block, trailer)
+        skel = tuple('BH_VSHE')
+        for pos in range(len(skel) + 1):
+            for k in keys:
+                seqs.append(skel[:pos] + (k,) + skel[pos:])
+                if pos < len(skel):
+                    seqs.append(skel[:pos] + (k,) + skel[pos + 1:])
+                for k2 in 'BSEAY':
+                    seqs.append(skel[:pos] + (k, k2) + skel[pos:])
     else:
         for L in range(0, 6):
             seqs.extend(itertools.product(keys, repeat=L))
@@ -341,6 +351,34 @@ def c09(rng, tier):
         n += 1
         if got[0] != 'ok' or len(got[1]) != 1:
             viol.append({'what': 'C09 valid line rejected %r: %r' % (good, got), 'key': 'good:' + good[:10], 'props': ['C09']})
+    # the size field: every string class Python's own number predicates disagree on (str.isdigit / isdecimal / isnumeric
+    # vs int()), signs, separators, blanks, very long digit strings (int() refuses > 4300 digits)
+    sizes = ['0', '00', '7', '+5', '-0', '-5', '5_0', '_5', '5_', '1e3', '1.0', '0x1', '0b1', 'nan', 'inf', '\u00b2', '1\u00b2', '\u2075',
+             '\u2085', '\u2460', '\u2776', '\u2488', '\u0663', '\u0661\u0662', '\uff15', '\U0001d7d9', '\u4e00', '\u2167', '\u00bd', '\u0be7',
+             '\u1369', '\u3007', '9' * 4300, '9' * 4301, '1' + '0' * 6000, '\u0663' * 4301, '5\u00a0', '\u20075', '5\x0c']
+    for tag, path in (('DATA', 'a'), ('MISC', 'a'), ('EBUILD', 'a.ebuild'), ('AUX', 'a'), ('MANIFEST', 'a/Manifest'), ('DIST', 'a.tar')):
+        for sz in sizes:
+            for tail in ('', ' SHA1 ab'):
+                got, m = gemato_load('%s %s %s%s\n' % (tag, path, sz, tail))
+                n += 1
+                distinct += 1
+                bad = None
+                if got[0] == 'exc':
+                    bad = 'escaped as %r' % (got,)
+                elif got[0] == 'ok':
+                    e = m.entries[0] if len(m.entries) == 1 else None
+                    if e is None or not isinstance(e.size, int) or isinstance(e.size, bool) or e.size < 0:
+                        bad = 'accepted with size %r' % (getattr(e, 'size', None),)
+                    else:
+                        try:
+                            want = int(sz)
+                        except ValueError:
+                            want = None
+                        if want is None or want != e.size:
+                            bad = 'accepted as %r' % (e.size,)
+                if bad:
+                    viol.append({'what': 'C09 size field %r of %s: %s' % (sz[:20], tag, bad), 'key': 'size-field:%s' % ascii(sz[:6]),
+                                 'props': ['C09', 'C18'] if got[0] == 'exc' else ['C09']})
     # exhaustive short token sequences over a small alphabet
     toks = ['DATA', 'IGNORE', 'TIMESTAMP', 'DIST', 'AUX', 'FOO', 'a', '/a', '1', '-1', 'x', 'SHA1', '\\x2F', '\\', '2020-01-01T00:00:00Z', '']
     maxn = 3 if tier == 'quick' else 4
